@@ -31,6 +31,8 @@ pub struct Ipv4Packet {
     header: RefCell<Ipv4Header>,
     pub rawdata: RefCell<Rc<Vec<u8>>>,
     pub offset: usize,
+    // the selector as captured: it decides which layer follows, whatever the field is set to later
+    announced: Protocol,
     pub inner: RefCell<Option<Rc<Object>>>,
 }
 
@@ -85,6 +87,7 @@ impl Ipv4Packet {
         //  offset of payload
         let offset = off + header_len;
 
+        let announced = protocol.clone();
         let header = Ipv4Header {
             version,
             ihl,
@@ -105,6 +108,7 @@ impl Ipv4Packet {
             header: RefCell::new(header),
             rawdata: RefCell::new(rawdata),
             offset,
+            announced,
             inner: RefCell::new(None),
         })
     }
@@ -274,7 +278,7 @@ impl Ipv4Packet {
     }
 
     pub fn get_protocol_raw(&self) -> Protocol {
-        self.header.borrow().protocol.clone()
+        self.announced.clone()
     }
     pub fn get_protocol(&self) -> Rc<Object> {
         Rc::new(Object::Integer(self.header.borrow().protocol.0 as i64))
